@@ -1174,6 +1174,9 @@ class Collection(object):
             fields = {'_id': 1}
         if not isinstance(fields, dict):
             fields = helpers.fields_list_to_dict(fields)
+        else:
+            # Work on a copy: the projection belongs to the caller.
+            fields = dict(fields)
 
         # we can pass in something like {'_id':0, 'field':1}, so pull the id
         # value out and hang on to it until later
